@@ -15,6 +15,7 @@ import (
 	"sort"
 	"strings"
 	"sync"
+	"sync/atomic"
 	"time"
 
 	"github.com/q191201771/lal/pkg/base"
@@ -28,7 +29,17 @@ import (
 	"github.com/q191201771/naza/pkg/connection"
 )
 
-const c15Watchdog = 5 * time.Second
+// a wait that does not end within the watchdog is reported as "stuck" /
+// "blocked"; after a few of those in one process the remaining cases use a
+// short watchdog so that a broken tree is reported in minutes, not hours
+var c15Expired int32
+
+func c15WatchdogDur() time.Duration {
+	if atomic.LoadInt32(&c15Expired) >= 3 {
+		return 300 * time.Millisecond
+	}
+	return 3 * time.Second
+}
 
 var errC15Stuck = errors.New("stuck")
 
@@ -131,7 +142,8 @@ func (c *stallConn) received() []byte {
 func (c *stallConn) waitFor(pred func() bool) error {
 	done := make(chan struct{})
 	var timedOut bool
-	timer := time.AfterFunc(c15Watchdog, func() {
+	timer := time.AfterFunc(c15WatchdogDur(), func() {
+		atomic.AddInt32(&c15Expired, 1)
 		c.mu.Lock()
 		timedOut = true
 		c.cond.Broadcast()
@@ -320,7 +332,8 @@ func (c *c15Cons) sessWrite(bufs [][]byte) error {
 	var r int
 	select {
 	case r = <-res:
-	case <-time.After(c15Watchdog):
+	case <-time.After(c15WatchdogDur()):
+		atomic.AddInt32(&c15Expired, 1)
 		return errors.New("blocked")
 	}
 	if r >= 0 && r != 0 {
@@ -594,7 +607,8 @@ func c15Group(a []string) string {
 			go func() { g.AddHttpflvSubSession(c.owner.(*httpflv.SubSession)); close(done) }()
 			select {
 			case <-done:
-			case <-time.After(c15Watchdog):
+			case <-time.After(c15WatchdogDur()):
+		atomic.AddInt32(&c15Expired, 1)
 				return "blocked@add"
 			}
 			if err := c.settleAfterPublish(wasBlocked, false); err != nil {
@@ -632,7 +646,8 @@ func c15Group(a []string) string {
 				go func() { g.OnReadRtmpAvMsg(msg); close(done) }()
 				select {
 				case <-done:
-				case <-time.After(c15Watchdog):
+				case <-time.After(c15WatchdogDur()):
+		atomic.AddInt32(&c15Expired, 1)
 					return fmt.Sprintf("blocked@op%d", k)
 				}
 				for i, c := range cs {
@@ -660,7 +675,8 @@ func c15Group(a []string) string {
 				go func() { g.Tick(tick); close(done) }()
 				select {
 				case <-done:
-				case <-time.After(c15Watchdog):
+				case <-time.After(c15WatchdogDur()):
+		atomic.AddInt32(&c15Expired, 1)
 					return fmt.Sprintf("blocked@op%d", k)
 				}
 				for _, c := range cs {
